@@ -114,6 +114,8 @@ _compression_write(xmpp_conn_t *conn, const void *buff, size_t len, int flush)
     struct xmpp_compression *comp = conn->compression.state;
     comp->compression.stream.next_in = (Bytef *)buff;
     comp->compression.stream.avail_in = len;
+    if (len == 0 && !flush)
+        return 0;
     do {
         ret = _try_compressed_write_to_network(conn, 0);
         if (ret < 0) {
